@@ -8,6 +8,7 @@ import random
 from core import (Report, Work, run_tlc, use_repo, seed, MachineryError)
 
 NOARG, UNKNOWN, BAD, DEFAULT = 99, 98, 9, 7
+NONE = 2
 ERRS = ('KeyError', 'ValueError', 'IndexError', 'Refused')
 
 
@@ -30,10 +31,11 @@ class Binding(object):
         self.MARKER = hs.MARKER
 
     def val(self, v):
-        return self.MARKER if v == DEFAULT else v
+        # the abstract value 2 is Python's None (Haystack null): an ordinary value for an ordered map
+        return self.MARKER if v == DEFAULT else None if v == NONE else v
 
     def unval(self, x):
-        return DEFAULT if x is self.MARKER else x
+        return DEFAULT if x is self.MARKER else NONE if x is None else x
 
     @staticmethod
     def validator(v):
@@ -123,6 +125,9 @@ class Binding(object):
                 return ['item', int(k[1:]), self.unval(v)]
             if n == 'sort':
                 return ['None'] if m.sort() is None else ['unexpected_return']
+            if n == 'sort_by':
+                kf = (lambda k: int(k[1:]) % 2) if o['f'] == 'mod2' else (lambda k: int(k[1:]))
+                return ['None'] if m.sort(key=kf, reverse=bool(o['rev'])) is None else ['unexpected_return']
             if n == 'reverse':
                 return ['None'] if m.reverse() is None else ['unexpected_return']
             if n == 'clear':
@@ -226,7 +231,7 @@ def random_history(rng, b, cls, nkeys, length):
     evs = []
     meta = cls is b.MetadataObject
     names = ['add_item'] * 6 + ['setitem'] * 3 + ['delitem', 'pop', 'pop_default', 'pop_at', 'popitem',
-                                                  'sort', 'reverse', 'setdefault']
+                                                  'sort', 'sort_by', 'sort_by', 'reverse', 'setdefault']
     if meta:
         names += ['append', 'append_default', 'extend', 'extend']
     for _ in range(length):
@@ -257,6 +262,8 @@ def random_history(rng, b, cls, nkeys, length):
             o.update(k=K())
         elif n == 'pop_at':
             o.update(index=rng.randint(0, len(cur) + 1))
+        elif n == 'sort_by':
+            o.update(f=rng.choice(['id', 'mod2', 'mod2']), rev=rng.random() < 0.6)
         elif n == 'append':
             o.update(k=K(), v=V(), replace=rng.random() < 0.7)
         elif n == 'append_default':
